@@ -1,6 +1,6 @@
 """C01 All VM configurations compute the same hash."""
 import astq
-from rules import a64hsem, aes, argon, cgsize, driver, dsinit, jit, jitcross, portable, rv64, rvhsem, spec, sshash, vmcfg, x86hsem, rtpreserve
+from rules import a64hsem, aes, argon, cgsize, driver, dsinit, jit, jitcross, portable, rv64, rvhsem, spec, sshash, vmcfg, x86hsem, rtpreserve, aeshw
 
 LEVEL = 'other'
 TECHNIQUE = ('exhaustive flag-to-class dispatch check, frozen-table check of every dataset-address composition site, per-engine v1/v2 gate enumeration, abstract interpretation of the hand-written dataset-read fragments, sibling agreement rules of C04 / C08 / C10 / C12'
@@ -64,3 +64,4 @@ def run(ctx, R):
     rvhsem.rule_rvv_ss_hsem(ctx, R)
     rtpreserve.rule_rv(ctx, R, 'rvv')
     rtpreserve.rule_const(ctx, R, 'rvv')
+    aeshw.rule_rvv_jit_vlen(ctx, R)
